@@ -4,6 +4,13 @@
 //   255      -> one block of the exhaustive lattice product: ordered integer type pair (ta,tb) = next byte % 36;
 //               every lattice(ta) x lattice(tb) pair is compared in both directions and every lattice(ta) value is read
 //               through getter tb inside a fixture (36 corpus seeds "exh-*.bin" enumerate the whole product in both tiers)
+//   240..254 -> ALIASED operands: both values refer to the same storage.  Memory buffers: two sub-ranges (offset, length)
+//               of one exact-size block (same pointer with same / shorter / longer / zero length, overlapping ranges
+//               buf+k); strings: two pointers into one NUL-terminated block (same pointer, pointer into the middle),
+//               or a string and a buffer on the same address; objects / const objects: the same object under independent
+//               type names, repository settings and const-ness; pointer kinds: one address (a function's, or NULL)
+//               under two of the three pointer kinds.  The oracle is unchanged (length and content, content, receiver's
+//               comparator, identity within one type, different types never equal).
 //   other    -> one ordered pair (A,B): A generated freely, B either freely (mode%4==0) or derived from A
 //               (same payload / neighbour / wrap-alias or sibling kind); both directions of equals() are judged, and every
 //               integer operand is read through two different integer getters chosen by the input, each call inside its
@@ -89,7 +96,6 @@ void fn2() { g_sink = 2; }
 void fn3() { g_sink = 3; }
 typedef void (*Fn)();
 Fn g_fns[4] = {NULLPTR, fn1, fn2, fn3};
-void* ptr_of(int idx) { return idx == 0 ? NULLPTR : (void*)&g_ptr_targets[idx]; }
 
 struct Obj { int v; int tag; };
 Obj g_pool[4] = {{0, 0}, {0, 1}, {1, 2}, {2, 3}};   // pool[0] and pool[1]: same content, different identity
@@ -118,6 +124,8 @@ struct Val {
     i128 iv = 0;                 // integers
     bool b = false;              // bool
     int pidx = 0;                // pointer kinds
+    bool fnpool = false;         // void* / const void* holding a function's address (aliased pointer kinds)
+    const char* ext = nullptr;   // aliased operands: points into storage owned by the case, not by this value
     bool is_null = false;        // string / membuf
     std::string bytes;           // string content / buffer content
     double d = 0, tol = 0.005; bool tol_default = true;
@@ -128,13 +136,15 @@ struct Val {
     ~Val() { delete mv; free(buf); }
     Val() {}
     Val(const Val&) = delete;
+    void* addr() const { return pidx == 0 ? NULLPTR : ((fnpool || kind == K_FPTR) ? (void*)g_fns[pidx] : (void*)&g_ptr_targets[pidx]); }
+    int addr_key() const { return pidx == 0 ? 0 : ((fnpool || kind == K_FPTR) ? 4 : 0) + pidx; }
     bool has_cmp() const { return repo_on && (otype == 0 || otype == 3); }
     std::string tag() const { return (kind == K_OBJ || kind == K_COBJ) ? std::string(OTYPE[otype]) : std::string(KNAME[kind]); }
     std::string render() const {
         std::string p = prefill ? sfmt("{prefill%d}", prefill) : "";
         switch (kind) {
         case K_BOOL: return p + sfmt("bool:%d", (int)b);
-        case K_PTR: case K_CPTR: case K_FPTR: return p + sfmt("%s:#%d", KNAME[kind], pidx);
+        case K_PTR: case K_CPTR: case K_FPTR: return p + sfmt("%s:#%d%s", KNAME[kind], pidx, fnpool ? "(fn address)" : "");
         case K_STR: return p + (is_null ? std::string("string:NULL") : "string:\"" + verif::printable(bytes) + "\"");
         case K_MEM: return p + (is_null ? std::string("membuf:NULL/0") : sfmt("membuf[%zu]:\"", bytes.size()) + verif::printable(bytes) + "\"");
         case K_DBL: return p + "double:" + d2s(d) + (tol_default ? std::string("~default") : "~" + d2s(tol));
@@ -149,13 +159,15 @@ struct Val {
         else if (prefill == 2) mv->setValue(bits2d(0xFFF7A5A5A5A5A5A5ULL), bits2d(0x7FF0000000000001ULL));
         switch (kind) {
         case K_BOOL: mv->setValue(b); break;
-        case K_PTR: mv->setValue(ptr_of(pidx)); break;
-        case K_CPTR: mv->setValue((const void*)ptr_of(pidx)); break;
+        case K_PTR: mv->setValue(addr()); break;
+        case K_CPTR: mv->setValue((const void*)addr()); break;
         case K_FPTR: mv->setValue(g_fns[pidx]); break;
         case K_STR:
+            if (ext) { mv->setValue(ext); break; }
             if (!is_null) { buf = (char*)malloc(bytes.size() + 1); memcpy(buf, bytes.c_str(), bytes.size() + 1); }   // exact size: ASan sees over-reads
             mv->setValue((const char*)buf); break;
         case K_MEM:
+            if (ext) { mv->setMemoryBuffer((const unsigned char*)ext, bytes.size()); break; }
             if (!is_null) { buf = (char*)malloc(bytes.size() ? bytes.size() : 1); memcpy(buf, bytes.data(), bytes.size()); }
             mv->setMemoryBuffer((const unsigned char*)buf, bytes.size()); break;
         case K_DBL: if (tol_default) mv->setValue(d); else mv->setValue(d, tol); break;
@@ -270,6 +282,56 @@ void derive_val(Reader& r, const Val& a, uint32_t rel, Val& v) {
     }
 }
 
+// ALIASED operands: A and B refer to the same storage (owned by `st`).  Returns a class name for the histogram.
+struct Storage { char* p = nullptr; ~Storage() { free(p); } };
+std::string gen_alias(Reader& r, Val& a, Val& b, Storage& st, bool& distinct_views) {
+    uint32_t sub = r.below(4);
+    a.prefill = (int)r.below(3); b.prefill = (int)r.below(3);
+    switch (sub) {
+    case 0: {   // two sub-ranges of one exact-size block
+        std::string S = r.str(8, "a\0\xff", 3);
+        uint32_t n = (uint32_t)S.size();
+        st.p = (char*)malloc(n ? n : 1); memcpy(st.p, S.data(), n);
+        uint32_t oa = r.below(n + 1), la = r.below(n - oa + 1), ob = r.flag() ? r.below(n + 1) : oa, lb = r.below(n - ob + 1);   // half the cases: same pointer
+        a.kind = b.kind = K_MEM;
+        a.bytes = S.substr(oa, la); a.ext = st.p + oa;
+        b.bytes = S.substr(ob, lb); b.ext = st.p + ob;
+        distinct_views = (oa != ob || la != lb);
+        if (oa == ob) return la == lb ? "alias:membuf:same-pointer-same-length" : (la == 0 || lb == 0) ? "alias:membuf:same-pointer-zero-vs-nonzero-length" : "alias:membuf:same-pointer-different-length";
+        bool overlap = (oa < ob + lb && ob < oa + la);
+        return overlap ? "alias:membuf:overlapping-ranges" : "alias:membuf:disjoint-ranges-of-one-block"; }
+    case 1: {   // two pointers into one NUL-terminated block; B may also be a buffer on that address
+        std::string S = r.str(6, "abA");
+        uint32_t n = (uint32_t)S.size();
+        st.p = (char*)malloc(n + 1); memcpy(st.p, S.c_str(), n + 1);
+        uint32_t oa = r.below(n + 1), ob = r.flag() ? r.below(n + 1) : oa;
+        a.kind = K_STR; a.bytes = S.substr(oa); a.ext = st.p + oa;
+        if (r.below(4) == 3) {
+            uint32_t lb = r.below(n + 1 - ob + 1);   // may include the terminating NUL
+            b.kind = K_MEM; b.bytes = std::string(st.p + ob, lb); b.ext = st.p + ob;
+            distinct_views = true;
+            return oa == ob ? "alias:string-vs-membuf:same-address" : "alias:string-vs-membuf:same-block";
+        }
+        b.kind = K_STR; b.bytes = S.substr(ob); b.ext = st.p + ob;
+        distinct_views = (oa != ob);
+        return oa == ob ? "alias:string:same-pointer" : "alias:string:pointer-into-the-other-string"; }
+    case 2: {   // one object under independent type names / repository settings / const-ness
+        a.oidx = b.oidx = (int)r.below(4);
+        a.otype = (int)r.below(4); b.otype = (int)r.below(4);
+        a.repo_on = r.below(4) != 3; b.repo_on = r.below(4) != 3;
+        a.kind = r.flag() ? K_COBJ : K_OBJ; b.kind = r.flag() ? K_COBJ : K_OBJ;
+        distinct_views = (a.otype != b.otype || a.has_cmp() != b.has_cmp());
+        if (a.otype != b.otype) return "alias:object:same-address-different-type-name";
+        return (a.has_cmp() && b.has_cmp()) ? "alias:object:same-address-same-type-with-comparator" : (a.has_cmp() || b.has_cmp()) ? "alias:object:same-address-same-type-one-side-has-comparator" : "alias:object:same-address-same-type-no-comparator"; }
+    default: {  // one address (a function's, or NULL) under two of the three pointer kinds
+        a.pidx = b.pidx = (int)r.below(4);
+        a.fnpool = b.fnpool = true;
+        a.kind = K_PTR + (int)r.below(3); b.kind = K_PTR + (int)r.below(3);
+        distinct_views = (a.kind != b.kind);
+        return a.kind == b.kind ? "alias:pointer:same-address-same-kind" : "alias:pointer:same-address-across-kinds"; }
+    }
+}
+
 // expected answer of recv.equals(arg): 1 true, 0 false, -1 not judged
 int expected(const Val& x, const Val& y, const char** why) {
     *why = "";
@@ -277,7 +339,7 @@ int expected(const Val& x, const Val& y, const char** why) {
     if (x.tag() != y.tag()) { *why = "different types never compare equal"; return 0; }
     switch (x.kind) {
     case K_BOOL: *why = "bool by identity"; return x.b == y.b;
-    case K_PTR: case K_CPTR: case K_FPTR: *why = "pointer by identity"; return x.pidx == y.pidx;
+    case K_PTR: case K_CPTR: case K_FPTR: *why = "pointer by identity"; return x.addr_key() == y.addr_key();
     case K_STR:
         *why = "string by content";
         if (x.is_null && y.is_null) return 1;
@@ -374,13 +436,22 @@ int run_block(uint32_t k) {
 
 int run_pair(Reader& r, uint32_t mode, bool& nontrivial, std::string& desc) {
     uint32_t rel = mode % 4;
+    Storage st;            // declared before the values: they are destroyed first
     Val a, b;
-    gen_val(r, a);
-    if (rel == 0) gen_val(r, b); else derive_val(r, a, rel, b);
-    desc = sfmt("A=%s B=%s rel=%u", a.render().c_str(), b.render().c_str(), rel);
+    if (mode >= 240) {
+        bool distinct_views = false;
+        std::string c = gen_alias(r, a, b, st, distinct_views);
+        verif::cls(c.c_str());
+        if (distinct_views) nontrivial = true;
+        desc = sfmt("A=%s B=%s ALIASED (%s)", a.render().c_str(), b.render().c_str(), c.c_str() + 6);
+    } else {
+        gen_val(r, a);
+        if (rel == 0) gen_val(r, b); else derive_val(r, a, rel, b);
+        desc = sfmt("A=%s B=%s rel=%u", a.render().c_str(), b.render().c_str(), rel);
+        verif::cls(sfmt("relation:%u", rel).c_str());
+    }
     if (verif::g_explain) fprintf(stderr, "  %s\n", desc.c_str());
     verif::cls(sfmt("pair:%s/%s", KNAME[a.kind], KNAME[b.kind]).c_str());
-    verif::cls(sfmt("relation:%u", rel).c_str());
     a.materialise(); b.materialise();
     bool ab = a.mv->equals(*b.mv), ba = b.mv->equals(*a.mv);
     desc += sfmt(" -> %d/%d", (int)ab, (int)ba);
